@@ -30,6 +30,12 @@ Definition raises (t : exit_test) (code : option Z) : bool :=
 (* The model distinguishes only zero and non-zero exit statuses (bad_exit): sys.exit(k), k <> 0, is status 1 *)
 Definition norm_status (k : Z) : Z := if k =? 0 then 0 else 1.
 
+(* FRaise stands for ANY exception that ends run_job (every BaseException): one that a clause of entrypoint's
+   try catches exits with that clause's status, one that no clause catches exits 1 (multiprocessing).  The
+   status a failing worker is guaranteed to leave is therefore non-zero only if no clause leads to status 0. *)
+Definition exception_status (ir : workers_ir_t) : Z :=
+  if forallb (fun h => negb (snd h =? 0)) (ir_other_handlers ir) then norm_status (ir_exit_status ir) else 0.
+
 Definition stop_put_block (ir : workers_ir_t) : option bool :=
   match ir_stop ir with SPuts _ _ b :: _ => Some b | _ => None end.
 Definition stop_puts (ir : workers_ir_t) : option (nat * nat) :=
@@ -117,7 +123,7 @@ Definition ir_step (ir : workers_ir_t) (e : event) (s : state) : option state :=
       | Some (Exited _) | None => None
       | Some _ =>
           match ir_epilogue_place ir with
-          | InTry => Some (set_w s w (Exited (norm_status (ir_exit_status ir))))
+          | InTry => Some (set_w s w (Exited (exception_status ir)))
           | InFinally => Some (set_w s w Done)      (* waits for shutdown before it exits *)
           end
       end
@@ -181,6 +187,6 @@ Definition guards_ok (ir : workers_ir_t) : bool :=
 (* The configuration of model/Workers.v the source denotes. *)
 Definition denote (ir : workers_ir_t) : option config :=
   if structure_ok ir && guards_ok ir
-  then Some (mkC (norm_status (ir_exit_status ir))
+  then Some (mkC (exception_status ir)
                  (match stop_join ir with Some JoinDeadline => true | _ => false end))
   else None.
